@@ -307,6 +307,22 @@ def run_history(case, rec, mode):
                 opmap = {k: np.where(qd[:, None] == qd[None, :], m, 0) for k, m in opmap.items()}
             result = ptn.MPO.from_opgraph(w.qd, graph, opmap)
             w.add_mpo(result, False)
+        elif kind == 'zero_site':
+            # user-style edit: one site tensor of a pooled MPS or MPO (never the family Hamiltonian) set to zero - a legal object
+            # (the zero state / operator) that sends the block decompositions of later steps into their degenerate branches
+            if step[2] % 2 == 0 or len(w.mpo) < 2:
+                a = pick_mps(step[1])
+                if a is None:
+                    continue
+                k = step[3] % len(a.A)
+                a.A[k] = np.zeros_like(a.A[k])
+                target = a
+            else:
+                idx = 1 + step[1] % (len(w.mpo) - 1)
+                o = w.mpo[idx][0]
+                k = step[3] % len(o.A)
+                o.A[k] = np.zeros_like(o.A[k])
+                target = o
         elif kind in ('orth', 'compress', 'zero_q'):
             a = pick_mps(step[1])
             if a is None:
@@ -525,6 +541,7 @@ def history(draw, tier, mode):
         st.tuples(st.just('compress'), sel, sel, sel),
         st.tuples(st.just('compress'), sel, sel, sel),
         st.tuples(st.just('zero_q'), sel),
+        st.tuples(st.just('zero_site'), sel, sel, sel),
         st.tuples(st.sampled_from(['orth_mpo', 'orth_mpo', 'zero_q_mpo']), sel, sel),
         st.tuples(st.just('split'), sel, sel, sel, sel),
         st.tuples(st.just('tdvp'), sel, st.just(0), sel, sel, sel, sel, sel),
